@@ -111,7 +111,8 @@ func (p *jsoncParser) parse(lex _Lexer) bool {
 		if action == accept {
 			break
 		} else if action >= 0 { // shift
-			if p._la != ERROR {
+			shiftedError := p._la == ERROR
+			if !shiftedError {
 				p._recovering = false
 			}
 			p._stack.Push(_item{
@@ -119,6 +120,11 @@ func (p *jsoncParser) parse(lex _Lexer) bool {
 				Sym:   p._lasym,
 			})
 			p._readToken()
+			// Consecutive lexer errors are reported once, by the first of them
+			// (_recover does the same).
+			for shiftedError && p._la == ERROR {
+				p._readToken()
+			}
 		} else { // reduce
 			prod := -action
 			termCount := _termCounts[int(prod)]
@@ -191,6 +197,7 @@ func (p *jsoncParser) _recover() bool {
 
 	for {
 		save := p._stack
+		saveErrSym := errSym
 
 		for len(p._stack) >= 1 {
 			// Simulate the reductions that would precede shifting ERROR on a copy of
@@ -232,6 +239,11 @@ func (p *jsoncParser) _recover() bool {
 				return true
 			}
 
+			// An error that was shifted but not yet reduced is about to be
+			// discarded. It came first, so it is the one to report.
+			if e, ok := p._stack.Peek(0).Sym.(Error); ok {
+				errSym = e
+			}
 			p._stack.Pop(1)
 		}
 
@@ -240,6 +252,7 @@ func (p *jsoncParser) _recover() bool {
 		}
 
 		p._stack = save
+		errSym = saveErrSym
 		p._readToken()
 	}
 }
